@@ -363,7 +363,50 @@ def snapshot(root, content_facts=True, max_text=4096):
 
     top = node_of(root, "", os.path.basename(root), 0, content_facts, max_text)
     walk(root, "", 1)
+    try:
+        add_git_facts(root, top, nodes)
+    except OSError:
+        pass
     return top, nodes
+
+
+def add_git_facts(root, top, nodes):
+    """libgit2's verdict per entry, taken from `git check-ignore` (the reference implementation of the same
+    rules); `.git` itself counts as ignored, as libgit2 reports it"""
+    import subprocess
+    repos = [root] if os.path.isdir(os.path.join(root, ".git")) else []
+    for n in nodes:
+        if n["kind"] == "d" and os.path.isdir(os.path.join(root, n["rel"], ".git")):
+            repos.append(os.path.join(root, n["rel"]))
+    if not repos:
+        return
+    for n in nodes:
+        p = os.path.join(root, n["rel"])
+        repo = None
+        for rp in sorted(repos, key=len, reverse=True):
+            if p == rp or p.startswith(rp + "/"):
+                repo = rp
+                break
+        if repo is None or p == repo:
+            continue
+        rel = os.path.relpath(p, repo)
+        if rel == ".git" or rel.startswith(".git/"):
+            n["facts"]["gitign"] = 1
+            continue
+        n["_git"] = (repo, rel + ("/" if n["kind"] == "d" else ""))
+    by_repo = {}
+    for n in nodes:
+        if "_git" in n:
+            by_repo.setdefault(n["_git"][0], []).append(n)
+    for repo, ns in by_repo.items():
+        inp = "\0".join(n["_git"][1] for n in ns).encode("utf-8", "surrogateescape") + b"\0"
+        pr = subprocess.run(["git", "-C", repo, "check-ignore", "--stdin", "-z"], input=inp, stdout=subprocess.PIPE,
+                            stderr=subprocess.PIPE, env={"HOME": "/nonexistent", "PATH": "/usr/bin:/bin", "GIT_CONFIG_NOSYSTEM": "1"})
+        ignored = set(pr.stdout.split(b"\0"))
+        for n in ns:
+            if n["_git"][1].encode("utf-8", "surrogateescape") in ignored:
+                n["facts"]["gitign"] = 1
+            del n["_git"]
 
 
 def days_from_civil(y, m, d):
@@ -377,7 +420,7 @@ def node_line(n, tzoff):
     fields = [str(n["depth"]), hx(n["name"]), n["kind"], str(n["size"]), str(n["mode"]), str(n["uid"]), str(n["gid"]),
               str(n["nlink"]), str(n["ino"]), str(n["dev"]), str(n["blocks"]), str(n["mtime"] + tzoff),
               hx(n["user"]) if n["user"] is not None else "!", hx(n["group"]) if n["group"] is not None else "!"]
-    for k in ("nl", "sb", "sha1", "sha256", "sha512", "sha3", "empty", "xa", "unlistable", "unreadable", "capsraw", "nocaps"):
+    for k in ("nl", "sb", "sha1", "sha256", "sha512", "sha3", "empty", "xa", "unlistable", "unreadable", "capsraw", "nocaps", "gitign"):
         if k in f:
             fields.append("%s=%s" % (k, f[k]))
     if "text" in f:
